@@ -74,10 +74,22 @@ pub fn record(args: &[String]) {
 			};
 			let (Some(mut m1), Some(mut m2), Some(mut m3)) = (mk(kind, &p, i1, vol0), mk(kind, &p, i2, vol0), mk(kind, &p, i3, vol0)) else { continue };
 			tw.ev(json!({"ev":"law_new","law":law,"kind":kind,"n":n,"a":fx(a),"b":fx(b),"init":fx(x0)}));
+			// plateaus whose length sits right at the window length (n - 1, n, n + 1 unchanged inputs between moves)
+			let (mut hold, mut xprev, mut zprev) = (0u64, x0, z0);
 			for i in 0..steps {
-				let x = if i == 0 || law == "const" { x0 } else { g.scalar() };
-				let z = if i == 0 { z0 } else { g2.scalar() };
-				let vol = if i == 0 { vol0 } else { (rng.unit() * 50.0).floor() + if rng.chance(0.1) { 0.0 } else { 1.0 } };
+				if hold == 0 && i > 0 && rng.chance(0.06) {
+					hold = *rng.pick(&[1u64, n.saturating_sub(2).max(1), n.saturating_sub(1).max(1), n.saturating_sub(1).max(1), n, n + 1]);
+					if hold > 45 {
+						hold = 2;
+					}
+				}
+				let held = hold > 0;
+				hold = hold.saturating_sub(1);
+				let x = if i == 0 || law == "const" { x0 } else if held { xprev } else { g.scalar() };
+				let z = if i == 0 { z0 } else if held && rng.chance(0.5) { zprev } else { g2.scalar() };
+				xprev = x;
+				zprev = z;
+				let vol = if i == 0 { vol0 } else if rng.chance(0.1) { 0.0 } else { (rng.unit() * 50.0).floor() + 1.0 };
 				let y1 = step(&mut m1, kind, x, vol);
 				let (y2, y3, zz) = match law {
 					"affine" => (step(&mut m2, kind, a * x + b, vol), 0.0, 0.0),
@@ -107,6 +119,8 @@ pub fn impulse(args: &[String]) {
 	let lo: u64 = arg(args, 0, "lo");
 	let hi: u64 = arg(args, 1, "hi");
 	let mut tw = TraceWriter::create(&args[2]);
+	// optional 4th argument: number of zeros fed before the unit input (a late impulse)
+	let pre: u64 = args.get(3).map_or(0, |x| x.parse().expect("pre"));
 	for kind in IMPULSE {
 		for n in lo..=hi {
 			if n < min_n(kind) || (*kind == "WSMA" && n > 127) {
@@ -114,6 +128,10 @@ pub fn impulse(args: &[String]) {
 			}
 			let Some(mut m) = mk(kind, &json!([n]), 0.0, 1.0) else { continue };
 			tw.ev(json!({"ev":"law_new","law":"impulse","kind":kind,"n":n,"a":fx(0.0),"b":fx(0.0),"init":fx(0.0)}));
+			for _ in 0..pre {
+				let y = step(&mut m, kind, 0.0, 1.0);
+				tw.ev(json!({"ev":"impulse_pre","y":fx(y)}));
+			}
 			let total = (3 * n).min(2 * n + 40);
 			for j in 0..total {
 				let y = step(&mut m, kind, if j == 0 { 1.0 } else { 0.0 }, 1.0);
@@ -122,7 +140,7 @@ pub fn impulse(args: &[String]) {
 		}
 	}
 	// Conv: the impulse response is the weight vector itself (last weight first); kernels with zero weights at either end
-	if lo == 1 {
+	if lo == 1 && pre == 0 {
 		let kernels: Vec<Vec<f64>> = vec![
 			vec![1.0], vec![1.0, 2.0, 3.0], vec![3.0, 2.0, 1.0], vec![1.0, 1.0, 1.0, 0.0], vec![0.0, 0.0, 2.0, 1.0], vec![0.0, 1.5, 0.0, 0.25, 0.0],
 			vec![0.5, -0.25, 1.75], (1..=40).map(|i| (i % 7) as f64 * 0.3).collect(), (1..=254).map(|i| 1.0 + (i % 5) as f64).collect(),
